@@ -7,6 +7,7 @@ import (
 	"fmt"
 	"math/big"
 	"sort"
+	"strconv"
 	"strings"
 )
 
@@ -108,7 +109,38 @@ type Term struct {
 
 var termCounter int
 
+var internTab = map[string]*Term{}
+
+func internKey(k TKind, op string, s *Sort, args []*Term) string {
+	var b strings.Builder
+	b.WriteString(strconv.Itoa(int(k)))
+	b.WriteByte('|')
+	b.WriteString(op)
+	b.WriteByte('|')
+	b.WriteString(s.String())
+	for _, a := range args {
+		b.WriteByte(',')
+		b.WriteString(strconv.Itoa(a.id))
+	}
+	return b.String()
+}
+
 func newTerm(k TKind, op string, s *Sort, args ...*Term) *Term {
+	var key string
+	if k == TApp || k == TVar {
+		key = internKey(k, op, s, args)
+		if t, ok := internTab[key]; ok {
+			return t
+		}
+	}
+	t := newTerm0(k, op, s, args...)
+	if key != "" {
+		internTab[key] = t
+	}
+	return t
+}
+
+func newTerm0(k TKind, op string, s *Sort, args ...*Term) *Term {
 	termCounter++
 	t := &Term{K: k, Op: op, S: s, Args: args, id: termCounter}
 	if k == TBound {
@@ -136,8 +168,14 @@ func BoolLit(b bool) *Term {
 
 func IntLit(n int64) *Term { return IntLitBig(big.NewInt(n)) }
 
+var litTab = map[string]*Term{}
+
 func IntLitBig(n *big.Int) *Term {
+	if t, ok := litTab["i"+n.String()]; ok {
+		return t
+	}
 	t := newTerm(TLit, "", SInt)
+	litTab["i"+n.String()] = t
 	t.rat = new(big.Rat).SetInt(n)
 	if n.Sign() < 0 {
 		t.Op = "(- " + new(big.Int).Neg(n).String() + ")"
@@ -148,7 +186,11 @@ func IntLitBig(n *big.Int) *Term {
 }
 
 func RealLit(r *big.Rat) *Term {
+	if t, ok := litTab["r"+r.String()]; ok {
+		return t
+	}
 	t := newTerm(TLit, "", SReal)
+	litTab["r"+r.String()] = t
 	t.rat = new(big.Rat).Set(r)
 	num := new(big.Int).Set(r.Num())
 	neg := num.Sign() < 0
@@ -215,6 +257,16 @@ func And(as ...*Term) *Term {
 	if len(out) == 0 {
 		return True
 	}
+	out = dedupTerms(out)
+	for _, a := range out {
+		if a.K == TApp && a.Op == "not" {
+			for _, b := range out {
+				if b == a.Args[0] {
+					return False
+				}
+			}
+		}
+	}
 	if len(out) == 1 {
 		return out[0]
 	}
@@ -239,13 +291,38 @@ func Or(as ...*Term) *Term {
 	if len(out) == 0 {
 		return False
 	}
+	out = dedupTerms(out)
+	for _, a := range out {
+		if a.K == TApp && a.Op == "not" {
+			for _, b := range out {
+				if b == a.Args[0] {
+					return True
+				}
+			}
+		}
+	}
 	if len(out) == 1 {
 		return out[0]
 	}
 	return App("or", SBool, out...)
 }
 
+func dedupTerms(ts []*Term) []*Term {
+	seen := map[*Term]bool{}
+	var out []*Term
+	for _, t := range ts {
+		if !seen[t] {
+			seen[t] = true
+			out = append(out, t)
+		}
+	}
+	return out
+}
+
 func Implies(a, b *Term) *Term {
+	if a == b {
+		return True
+	}
 	if a == True {
 		return b
 	}
@@ -321,6 +398,13 @@ func Eq(a, b *Term) *Term {
 	}
 	if a.rat != nil && b.rat != nil {
 		return BoolLit(a.rat.Cmp(b.rat) == 0)
+	}
+	if a.K == TApp && b.K == TApp && a.Op == b.Op && a.S.Kind == KDT && a.Op == "mk_"+a.S.Name {
+		cs := make([]*Term, len(a.Args))
+		for i := range a.Args {
+			cs[i] = Eq(a.Args[i], b.Args[i])
+		}
+		return And(cs...)
 	}
 	if a.S == SBool {
 		if b == True {
